@@ -207,7 +207,7 @@ def maxlen_ops(rng, tier):
 
 def writer_ops(rng, tier):
     ops = []
-    seqs = ["u5", "b0102", "u5,u6", "u5,x-,u6", "x0102,u5", "b-,u24", "u300,x05", "-"]
+    seqs = ["u5", "b0102", "u5,u6", "u5,x-,u6", "x0102,u5", "b-,u24", "u300,x05", "-", "e", "u5,e,u6", "e,e,b01", "x01,e"]
     for s in seqs:
         vs = F.parse_vals(s)
         total = sum(4 + len(F.payload(v)) for v in vs if F.payload(v) is not None)
@@ -263,7 +263,7 @@ def long_ops(rng, tier):
         parts = F.rand_composition(rng, len(st), rng.choice([1, 3, 7, 64, 100000]))
         sc = with_intr(parts, [rng.randint(0, len(parts)) for _ in range(rng.randint(0, 8))])
         ops.append(f"fread {ml} {len(ps) + 2} {gen.hexb(st)} {F.script_tok(sc)} #k=rand #p={ptag}")
-        ws = [v if rng.random() < 0.97 else ("x", gen.rand_bytes(rng, 2)) for v in vs]
+        ws = [v if rng.random() < 0.95 else rng.choice([("x", gen.rand_bytes(rng, 2)), ("e", b"")]) for v in vs]
         evs = [rng.choice([1, 1, 2, 3, 5, 8, 40, 1000, "i"]) for _ in range(rng.randint(0, 6 * n))]
         ops.append(f"fwrite {ml} {F.vals_tok(ws)} {F.script_tok(evs)} #k=wr")
     return ops
